@@ -438,6 +438,7 @@ impl Check for C02Check {
                 format!("{:?}", render(&toks, layout))
             }
             Input::Index(i) => format!("phase {} index {}", phase, i),
+            Input::Text(s) => s.clone(),
         }
     }
 }
